@@ -76,6 +76,9 @@ pub struct SeqSpec {
     /// additional start states: symbol sequences of the Legal alphabet,
     /// instantiated on the model; the search continues from each of them
     pub roots: Vec<Vec<&'static str>>,
+    /// while instantiating a root, skip a symbol that is not applicable at that
+    /// state instead of dropping the root (used by the periodic histories)
+    pub roots_skip_inapplicable: bool,
 }
 
 #[derive(Default)]
@@ -490,7 +493,11 @@ pub fn run(spec: &SeqSpec, hist: &[Op], cfg: &Cfg, stats: &SeqStats) -> Result<R
                     // entries over the limit" rule is evaluated after appends.
                     // Other writes do not consult the cache; evictable entries
                     // left over the limit after them are counted, not alarmed.
-                    if ok && matches!(op, Op::Append(_)) {
+                    // (a multi-entry append that rotates the chunk on its way lets the
+                    // worker move the boundary between its inserts: no single "boundary
+                    // in force at that write" exists, the rule is not evaluated there)
+                    let batch_rotated = matches!(op, Op::Append(es) if es.len() > 1) && placed.iter().any(|p| p.rotated);
+                    if ok && matches!(op, Op::Append(_)) && !batch_rotated {
                         // boundary in force at the write = the one before the
                         // call (the worker was idle then)
                         let mut at_write = c.clone();
@@ -1139,11 +1146,16 @@ pub fn search(spec: &SeqSpec, rep: &Reporter, phase: usize) -> SeqResult {
         let mut hist = vec![];
         let mut ok = true;
         for sym in root {
-            match alphabet::legal(&m, Alpha::Legal).into_iter().find(|(n, _)| n == sym) {
+            let found = alphabet::legal(&m, Alpha::Legal)
+                .into_iter()
+                .find(|(n, _)| n == sym)
+                .or_else(|| alphabet::legal(&m, Alpha::Scale).into_iter().find(|(n, _)| n == sym));
+            match found {
                 Some((_, op)) => {
                     m.apply(&op);
                     hist.push(op);
                 }
+                None if spec.roots_skip_inapplicable => continue,
                 None => {
                     ok = false;
                     break;
